@@ -108,6 +108,30 @@ func c18Positions() []c18Position {
 			return []genlab.File{{Path: "first.json", Content: space.Text(J{"$id": "first", "type": "object", "properties": J{"bad": f}})},
 				{Path: "second.json", Content: space.Text(J{"$id": "second", "type": "object", "properties": J{"ok": ok}})}}, []string{"first.json", "second.json"}
 		}},
+		{"array-definition-item", true, func(f any) ([]genlab.File, []string) {
+			return one(J{"type": "object", "properties": J{"ok": ok}, "$defs": J{"List": J{"type": "array", "items": f}}})
+		}},
+		{"array-definition-nested-item", true, func(f any) ([]genlab.File, []string) {
+			return one(J{"type": "object", "properties": J{"ok": ok, "l": J{"$ref": "#/$defs/List"}}, "$defs": J{"List": J{"type": "array", "items": J{"type": "array", "items": f}}}})
+		}},
+		{"root-array-item", true, func(f any) ([]genlab.File, []string) {
+			return one(J{"type": "array", "items": f})
+		}},
+		{"second-file-allOf-same-ref-text-as-first", true, func(f any) ([]genlab.File, []string) {
+			// the first file defines and uses (inside allOf) the names the second file's fault may refer to
+			firstDefs := J{"Missing": J{"type": "object", "properties": J{"fromFirst": ok}}}
+			return []genlab.File{{Path: "first.json", Content: space.Text(J{"$id": "first", "type": "object", "$defs": firstDefs,
+					"properties": J{"c": J{"allOf": A{J{"$ref": "#/$defs/Missing"}, q}}, "d": J{"anyOf": A{J{"$ref": "#/$defs/Missing"}, q}}}})},
+					{Path: "second.json", Content: space.Text(J{"$id": "second", "type": "object", "properties": J{"c": J{"allOf": A{f, q}}, "d": J{"anyOf": A{f, q}}}})}},
+				[]string{"first.json", "second.json"}
+		}},
+		{"referenced-file-allOf-same-ref-text-as-referrer", true, func(f any) ([]genlab.File, []string) {
+			firstDefs := J{"Missing": J{"type": "object", "properties": J{"fromFirst": ok}}}
+			return []genlab.File{{Path: "s.json", Content: space.Text(J{"$id": "main", "type": "object", "$defs": firstDefs,
+					"properties": J{"c": J{"allOf": A{J{"$ref": "#/$defs/Missing"}, q}}, "r": J{"$ref": "other.json"}}})},
+					{Path: "other.json", Content: space.Text(J{"$id": "other", "type": "object", "properties": J{"c": J{"allOf": A{f, q}}}})}},
+				[]string{"s.json"}
+		}},
 		{"map-value", false, func(f any) ([]genlab.File, []string) {
 			return one(J{"type": "object", "properties": J{"ok": ok, "m": J{"type": "object", "additionalProperties": f}}})
 		}},
@@ -383,7 +407,7 @@ func c18(ctx *Ctx) {
 	byOutcome := map[string]int{}
 	known := func(r *c18Run) string {
 		switch {
-		case r.kind == "empty-enum" && r.pos == "allOf-branch" && r.res.Exit == 0:
+		case r.kind == "empty-enum" && (r.pos == "allOf-branch" || strings.Contains(r.pos, "-allOf-same-ref-text")) && r.res.Exit == 0:
 			return "EMPTY_ENUM_ALLOF_BRANCH_IGNORED"
 		case r.kind == "malformed" && strings.HasPrefix(r.pos, "trailing-") && r.res.Exit == 0:
 			return "TRAILING_BYTES_IGNORED"
